@@ -48,3 +48,23 @@ extern "C" int verif_jit_emit(uint8_t* instr8, int i, uint32_t flags, int* usage
 	delete jit;
 	return n;
 }
+
+// whole program function: the real JIT compiles `prog` (any bytes are a valid program); the caller receives the code buffer and can run it
+extern "C" void* verif_jit_program(const uint8_t* progbytes, size_t n, uint32_t flags, void* cfg, uint8_t** code, size_t* size) {
+	JitCompilerX86* jit = new JitCompilerX86();
+	jit->enableAll();
+	jit->setFlags((randomx_flags)flags);
+	Program* p = new Program();
+	memset((void*)p, 0, sizeof(Program));
+	memcpy((void*)p, progbytes, n < sizeof(Program) ? n : sizeof(Program));
+	jit->generateProgram(*p, *(ProgramConfiguration*)cfg);
+	delete p;
+	*code = jit->getCode(); *size = jit->getCodeSize();
+	return jit;
+}
+extern "C" void verif_jit_run(void* jit, void* reg, void* memregs, uint8_t* scratchpad, uint64_t iterations) {
+	uint32_t saved = _mm_getcsr();
+	((JitCompilerX86*)jit)->getProgramFunc()(*(RegisterFile*)reg, *(MemoryRegisters*)memregs, scratchpad, iterations);
+	_mm_setcsr(saved);
+}
+extern "C" void verif_jit_free(void* jit) { delete (JitCompilerX86*)jit; }
